@@ -39,6 +39,8 @@ type Out struct {
 	Orig    []AAttr `json:"orig"`
 	Merged  []AAttr `json:"merged"`
 	Eq      bool    `json:"eq"`
+	EncEq   bool    `json:"encEq"`  // Twin: same encoding through both constructor routes
+	JSONEq  bool    `json:"jsonEq"` // Twin: same MarshalJSON through both constructor routes
 }
 type TEntry struct {
 	S []AAttr `json:"s"`
@@ -56,6 +58,8 @@ type Act struct {
 	How   string  `json:"how,omitempty"`
 	P     *Pred   `json:"p,omitempty"`
 	Items []AAttr `json:"items,omitempty"` // Bulk: a whole prepared slice
+	R1    int     `json:"r1,omitempty"`    // Twin: constructor routes (1-based)
+	R2    int     `json:"r2,omitempty"`
 }
 type edge struct {
 	From json.RawMessage `json:"from"`
@@ -174,13 +178,37 @@ func (m *machine) project(nkeys int) St {
 
 // step performs one abstract action on the real objects and returns what it observed.
 func (m *machine) step(a Act, nkeys int) Out {
-	o := Out{Bag: []AAttr{}, Dropped: []AAttr{}, Orig: []AAttr{}, Merged: []AAttr{}, Eq: true}
+	o := Out{Bag: []AAttr{}, Dropped: []AAttr{}, Orig: []AAttr{}, Merged: []AAttr{}, Eq: true, EncEq: true, JSONEq: true}
+	// constructor route of the next attribute: differs between positions and between builds
+	route := func() int { return m.variant + len(m.pend) + 7*m.nops }
 	switch a.Op {
 	case "Push":
-		m.pend = append(m.pend, m.km.concrete(*a.A, m.variant+len(m.pend)))
+		m.pend = append(m.pend, m.km.concrete(*a.A, route()))
 	case "Bulk":
 		for _, it := range a.Items {
-			m.pend = append(m.pend, m.km.concrete(it, m.variant+len(m.pend)))
+			m.pend = append(m.pend, m.km.concrete(it, route()))
+		}
+	case "Twin":
+		s1 := attribute.NewSet(m.km.concrete(*a.A, a.R1-1))
+		s2 := attribute.NewSet(m.km.concrete(*a.A, a.R2-1))
+		o.Eq = s1.Equals(&s2)
+		if s2.Equals(&s1) != o.Eq || (s1.Equivalent() == s2.Equivalent()) != o.Eq {
+			m.incons = append(m.incons, "Equals not symmetric / differs from Equivalent()==")
+		}
+		o.EncEq = s1.Encoded(attribute.DefaultEncoder()) == s2.Encoded(attribute.DefaultEncoder())
+		j1, e1 := s1.MarshalJSON()
+		j2, e2 := s2.MarshalJSON()
+		o.JSONEq = (e1 == nil) == (e2 == nil) && string(j1) == string(j2)
+		for _, s := range []attribute.Set{s1, s2} { // table[Equivalent()]++ for both
+			if e, ok := m.tab[s.Equivalent()]; ok {
+				e.n++
+			} else {
+				m.tab[s.Equivalent()] = &tabEntry{set: s, n: 1, ord: len(m.tab)}
+			}
+		}
+		m.cur = s1
+		if (a.R1+a.R2)%2 == 1 {
+			m.cur = s2
 		}
 	case "New":
 		if a.How == "Sortable" {
@@ -318,6 +346,8 @@ func diff(got St, gout Out, want St, wout Out, op string) []string {
 	add(!seqEq(gout.Merged, wout.Merged), "merged")
 	add(gout.SelfEq != wout.SelfEq, "selfeq")
 	add(gout.Eq != wout.Eq, "eq")
+	add(gout.EncEq != wout.EncEq, "enc-across-routes")
+	add(gout.JSONEq != wout.JSONEq, "json-across-routes")
 	add(!tableEq(got.Table, want.Table), "table")
 	return d
 }
@@ -451,6 +481,12 @@ func replay(args []string) {
 			if len(gout.Dropped) > 0 {
 				res.Count(fmt.Sprintf("size_%sDrop_%d", e.Act.Op, gout.Len), 1)
 			}
+			if e.Act.P != nil && (e.Act.P.Kind == "allow" || e.Act.P.Kind == "deny") {
+				res.Count(fmt.Sprintf("fkeys_%s_%s_%d", e.Act.Op, e.Act.P.Kind, len(e.Act.P.Ks)), 1)
+			}
+		case "Twin":
+			res.Count(fmt.Sprintf("twin_%s_%d_%d", e.Act.A.T, e.Act.R1, e.Act.R2), 1)
+			res.Count("twins", 1)
 		}
 		if nanAny {
 			res.Count("edges_with_nan_f64slice", 1)
